@@ -19,8 +19,8 @@ PLAN = {
                 quick=[("nsx", "N1", 6000), ("nsx", "N2", None), ("nsx", "N3", None), ("nsx", "N4", 4000), ("nsx", "N5", None), ("nsx", "N6", 3000), ("nsx", "N7", None)],
                 thorough=[("nsx", "N1", None), ("nsx", "N2", None), ("nsx", "N3", None), ("nsx", "N4", None), ("nsx", "N5", None), ("nsx", "N6", None), ("nsx", "N7", None)]),
     "C03": dict(mode="conv", tags={"EQUIV", "FIXPOINT"},
-                quick=[("panos", "P1", None), ("panos", "P2", None), ("panos", "P3", None), ("panos", "P7", None), ("panos", "P4", None), ("panos", "P8", 5000), ("panos", "P9", 3000)],
-                thorough=[("panos", "P1", None), ("panos", "P2", None), ("panos", "P3", None), ("panos", "P7", None), ("panos", "P4", None), ("panos", "P8", None), ("panos", "P9", None)]),
+                quick=[("panos", "P1", None), ("panos", "P2", None), ("panos", "P3", None), ("panos", "P7", None), ("panos", "P4", None), ("panos", "P8", 5000), ("panos", "P9", 3000), ("panos", "P5", None)],
+                thorough=[("panos", "P1", None), ("panos", "P2", None), ("panos", "P3", None), ("panos", "P7", None), ("panos", "P4", None), ("panos", "P8", None), ("panos", "P9", None), ("panos", "P5", None)]),
     "C05": dict(mode="conv", tags={"EQUIV", "FIXPOINT", "C08"},
                 quick=[("linux", "R1", 8000), ("linux", "I1", 6000), ("linux", "I2", None), ("linux", "I3", None)],
                 thorough=[("linux", "R1", None), ("linux", "I1", None), ("linux", "I2", None), ("linux", "I3", None)]),
@@ -61,12 +61,12 @@ PLAN = {
                 quick=[("asav", "F5", 4000), ("asav", "F6L", 2400), ("asav", "F6P", 1200), ("asav", "F5U", 1680), ("asav", "F5N", None), ("asa", "F1", 2000), ("asa", "F2", 6000), ("asa", "F2S", 2000), ("asa", "F3", 2000),
                        ("asa", "F4", 1000), ("asa", "F4N", None), ("asa", "F7", 2000),
                        ("ios", "F1", 2500), ("ios", "F8", 2500), ("ios", "F3", 2000), ("ios", "F4", 1000), ("ios", "F4M", None), ("ios", "F4N", None),
-                       ("ios", "F7", 1500), ("ios", "V1L", 1500), ("panos", "P1", None), ("panos", "P2", 2500), ("panos", "P3", None), ("panos", "P8", 2500), ("panos", "P9", 1500),
+                       ("ios", "F7", 1500), ("ios", "V1L", 1500), ("panos", "P1", None), ("panos", "P2", 2500), ("panos", "P3", None), ("panos", "P8", 2500), ("panos", "P9", 1500), ("panos", "P5", 1500),
                        ("nsx", "N1", 3000), ("nsx", "N2", None), ("nsx", "N3", None), ("nsx", "N6", 1500), ("nsx", "N7", 600)],
                 thorough=[("asav", "F5", None), ("asav", "F6L", None), ("asav", "F6P", None), ("asav", "F5U", None), ("asav", "F5N", None), ("asa", "F1", None), ("asa", "F2", None), ("asa", "F2S", None), ("asa", "F3", 40000),
                           ("asa", "F4", None), ("asa", "F4N", None), ("asa", "F7", 40000),
                           ("ios", "F1", None), ("ios", "F8", 60000), ("ios", "F3", None), ("ios", "F4", None), ("ios", "F4M", None), ("ios", "F4N", None),
-                          ("ios", "F7", None), ("ios", "V1L", None), ("panos", "P1", None), ("panos", "P2", None), ("panos", "P3", None), ("panos", "P8", None), ("panos", "P9", None),
+                          ("ios", "F7", None), ("ios", "V1L", None), ("panos", "P1", None), ("panos", "P2", None), ("panos", "P3", None), ("panos", "P8", None), ("panos", "P9", None), ("panos", "P5", None),
                           ("nsx", "N1", None), ("nsx", "N2", None), ("nsx", "N3", None), ("nsx", "N6", None), ("nsx", "N7", None)]),
     "C14": dict(mode="conv", tags={"C14"},
                 quick=[("asa", "F1L", 6000), ("ios", "F1L", 6000), ("asa", "F1", 6000), ("asa", "F4", None), ("asa", "F4N", None), ("asa", "F3", 1500),
@@ -78,12 +78,12 @@ PLAN = {
                        ("asa", "F4", 400), ("asa", "F4N", None), ("asa", "F7", 400),
                        ("ios", "F1", 500), ("ios", "F8", 500), ("ios", "F3", 400), ("ios", "F4", 400), ("ios", "F4M", None), ("ios", "F4N", None), ("ios", "V1L", 300),
                        ("linux", "R1", 600), ("linux", "I2", 200), ("panos", "P1", 300), ("panos", "P2", 500),
-                       ("panos", "P3", 300), ("panos", "P8", 300), ("panos", "P9", 300), ("nsx", "N1", 500), ("nsx", "N2", 200), ("nsx", "N6", 300), ("nsx", "N7", 300)],
+                       ("panos", "P3", 300), ("panos", "P8", 300), ("panos", "P9", 300), ("panos", "P5", 300), ("nsx", "N1", 500), ("nsx", "N2", 200), ("nsx", "N6", 300), ("nsx", "N7", 300)],
                 thorough=[("asav", "F5", 8000), ("asav", "F6L", 4800), ("asav", "F6P", None), ("asav", "F5U", 3360), ("asav", "F5N", None), ("asa", "F1", 8000), ("asa", "F2", 20000), ("asa", "F2S", 4000), ("asa", "F3", 6000),
                           ("asa", "F4", None), ("asa", "F4N", None), ("asa", "F7", 8000),
                           ("ios", "F1", 8000), ("ios", "F8", 8000), ("ios", "F3", 6000), ("ios", "F4", 6000), ("ios", "F4M", None), ("ios", "F4N", None), ("ios", "V1L", 5000),
                           ("linux", "R1", None), ("linux", "I1", 5000), ("linux", "I2", None),
-                          ("panos", "P1", None), ("panos", "P2", None), ("panos", "P3", None), ("panos", "P8", 4000), ("panos", "P9", None),
+                          ("panos", "P1", None), ("panos", "P2", None), ("panos", "P3", None), ("panos", "P8", 4000), ("panos", "P9", None), ("panos", "P5", None),
                           ("nsx", "N1", 6000), ("nsx", "N2", None), ("nsx", "N4", 4000), ("nsx", "N6", None), ("nsx", "N7", None)]),
 }
 
@@ -97,7 +97,7 @@ IOS_FAMS["S1"] = {"MaxLen": 2}
 IOS_FAMS["M1"] = {"MaxLen": 3}
 ASA_FAMS["M2L"] = {"MaxLen": 3}
 IOS_FAMS["M2L"] = {"MaxLen": 3}
-PANOS_FAMS = {"M3": {"MaxLen": 3}, "P9": {"MaxLen": 2}, "P8": {"MaxLen": 2}, "P4": {"MaxLen": 2}, "M2": {"MaxLen": 3}, "M1": {"MaxLen": 3}, "P1": {"MaxLen": 3}, "P2": {"MaxLen": 2}, "P3": {"MaxLen": 2}, "P7": {"MaxLen": 2}}
+PANOS_FAMS = {"P5": {"MaxLen": 2}, "M3": {"MaxLen": 3}, "P9": {"MaxLen": 2}, "P8": {"MaxLen": 2}, "P4": {"MaxLen": 2}, "M2": {"MaxLen": 3}, "M1": {"MaxLen": 3}, "P1": {"MaxLen": 3}, "P2": {"MaxLen": 2}, "P3": {"MaxLen": 2}, "P7": {"MaxLen": 2}}
 NSX_FAMS = {"N7": {"MaxLen": 3}, "N6": {"MaxLen": 3}, "N5": {"MaxLen": 3}, "N4": {"MaxLen": 3}, "M2": {"MaxLen": 3}, "M1": {"MaxLen": 3}, "N1": {"MaxLen": 3}, "N2": {"MaxLen": 2}, "N3": {"MaxLen": 3}}
 FAM_CONSTS = {"asav": {"F5N": {"MaxLen": 3}, "F6P": {"MaxLen": 3}, "F5": {"MaxLen": 3}, "F6L": {"MaxLen": 3}, "F5U": {"MaxLen": 3}, "M6": {"MaxLen": 3}}, "asa": ASA_FAMS, "ios": IOS_FAMS, "linux": LINUX_FAMS, "panos": PANOS_FAMS, "nsx": NSX_FAMS}
 
